@@ -23,16 +23,17 @@ func dumpAll(a Arguments, depth int) reflect.Value {
 	dumpScopeVars(&b, a.runtime.scope, 0)
 	dumpScopeVarsToDepth(&b, a.runtime.parent, depth)
 
+	// (the unlock is deferred: whatever panics while the globals are printed must not leave them locked)
 	a.runtime.set.gmx.RLock()
+	defer a.runtime.set.gmx.RUnlock()
 	vars = a.runtime.set.globals
 	for i, name := range vars.SortedKeys() {
 		if i == 0 {
 			fmt.Fprintln(&b, "Globals:")
 		}
 		val := vars[name]
-		fmt.Fprintf(&b, "\t%s:=%#v // %s\n", name, val, val.Type())
+		fmt.Fprintf(&b, "\t%s:=%#v // %s\n", name, val, getTypeString(val))
 	}
-	a.runtime.set.gmx.RUnlock()
 
 	blockKeys := a.runtime.scope.sortedBlocks()
 	fmt.Fprintln(&b, "Blocks:")
